@@ -12,7 +12,8 @@ add("C03", "exploration",
     "fields, three framings, chunk sizes incl. 1-byte first chunk, declared/undeclared/comma-joined trailers, pauses between writes) "
     "are served by a scripted raw-TCP backend and by an h2c backend behind the real agent (-race) and server binaries; a raw client "
     "compares status, every end-to-end field in both directions (nothing lost, nothing invented), body and trailers. A third part repeats this through an agent with session tracking, "
-    "websocket shim and banner enabled for responses those features must leave alone (no Set-Cookie, no HTML). Race reports of "
+    "websocket shim and banner enabled for responses those features must leave alone (no Set-Cookie, no HTML); a fourth kills the agent in the middle of a response "
+    "(the client must not get a response that ends regularly with part of the body). Bodies may be gzip-encoded and requests may lack Accept-Encoding; a field may be header and trailer at once. Race reports of "
     "the binaries count as violations. Sampling of inputs and schedules, not proof.",
     "Trusts net/http's client-side response parser used by the harness client. Date and Content-Type added by the front hop when the "
     "backend sent none, and re-framing (Content-Length/Transfer-Encoding/Trailer/Connection), are allowed.",
@@ -31,7 +32,7 @@ add("C04", "exploration",
     "Agent part: generated histories of pending-list replies (repeats, permutations, overlapping subsets, full re-listing as the App "
     "Engine proxy does, 999/1000-ID boundary cases) with generated gaps and fetch/upload/backend delays are served by a fake proxy to the "
     "real agent binary; a counting backend and the upload log give invocations per ID (must be exactly 1 for every listed ID). Server "
-    "part: 1-16 concurrent harness pollers against the real stand-alone proxy while clients arrive (incl. bursts of 99-250 clients queued before the first poll); in the agent part some requests have their first three response uploads ended without an answer and are listed again; the multiset of listed IDs must be "
+    "part: 1-16 concurrent harness pollers against the real stand-alone proxy while clients arrive (incl. bursts of 99-250 clients queued before the first poll); in the agent part some requests have their first three response uploads ended without an answer and are listed again, and one request may stay at the backend while 1001 others come and go before it is listed again; the multiset of listed IDs must be "
     "duplicate-free and complete, and resolve to distinct clients. Histories and schedules are sampled.",
     "The 1000-entry window is taken from the property text; IDs of earlier cases still occupy the agent's LRU (they are older, so they "
     "are evicted first). app/store's own listing is exercised by C19, not here.",
@@ -94,8 +95,8 @@ add("C10", "exploration",
     "the sessions.Cache handler in-process and are compared step by step with one independent net/http/cookiejar per session id; every "
     "cookie value carries its session tag so a cross-session leak is visible independently of the model; attributes and expiry of the "
     "issued session cookie are checked. A concurrent part runs 8-32 goroutines over shared/different sessions under -race.",
-    "The cookiejar differential is asserted only while fewer than limit-1 distinct session ids were used (eviction is allowed beyond); "
-    "client cookie values are simple tokens (http.Request.AddCookie sanitises others). Interleavings are sampled, the race detector amplifies.",
+    "The cookiejar differential is asserted while no more distinct session ids than the configured limit were used (eviction is allowed beyond); "
+    "client cookie values are simple tokens: other values are known finding F10d (one fixed probe, reported as KNOWN-FINDING). Interleavings are sampled, the race detector amplifies.",
     "stateful property-based testing (rapid): generated request/Set-Cookie histories, differential against net/http/cookiejar + tag isolation; concurrent stress under the race detector", "3/C10")
 add("C11", "exploration",
     "Delivery: generated operation sequences (data posts of 1-30 messages, backend bursts of 1-40 messages beyond the 10-slot buffers, polls, "
@@ -106,7 +107,7 @@ add("C11", "exploration",
     "thorough tier. Close after burst: 4 sessions at a time post 12-24 messages of up to 1 MiB to a slowly reading backend and close at once; the backend must "
     "receive all of them before it sees the connection closed. Sequences and timings are sampled.",
     "One data post and one poll outstanding at a time (as the browser shim does); polls are only issued while a message is outstanding, so "
-    "the 20 s poll timeout is not exercised here. JSON numbers are float64-exact; version 0 carries text only.",
+    "the 20 s poll timeout is not exercised here. Numbers in injected messages are compared exactly (as rationals); version 0 carries text only.",
     "stateful property-based testing (rapid): generated message/batching sequences against model queues; JSON-value oracle for injection; native go fuzzing", "3/C11")
 add("C12", "exploration",
     "Generated call histories over three session slots (open, data/poll/close with valid, unknown, already-closed, malformed and wrongly typed "
@@ -116,7 +117,7 @@ add("C12", "exploration",
     "and polls after a backend close must deliver the queued messages and then 400. Interleavings inside a group are sampled (hundreds of "
     "groups per run), not enumerated.",
     "Polls are only issued when a message or a close is pending (the 20 s / 408 path is sampled once in the thorough tier). For calls racing "
-    "a close, or following an asynchronous backend close, the allowed set is {200,400}.",
+    "a close, or following an asynchronous backend close, the allowed set is {200,400}; once the closing handshake of a backend close has completed a data post must be answered 400.",
     "stateful property-based testing (rapid): generated call histories and barrier-released concurrent groups against a session-table model", "3/C12")
 add("C13", "exploration",
     "Generated shim open bodies (every URL syntax class of net/url: hierarchical with foreign hosts, scheme-relative, path-only, opaque, "
@@ -137,7 +138,7 @@ add("C14", "exploration",
     "banner handler); the body must be the original or the original with exactly one script block spliced after the first <head>, and "
     "must be spliced when <head> lies inside the first read. Concurrent banner part: 8-32 goroutines x 5-20 framed requests for distinct URLs through one banner.Proxy with a slow writer; "
     "each page must equal the page served for the same URL on its own. Native fuzz targets repeat both oracles on raw inputs in the thorough tier.",
-    "The predicate is liberal about letter case of media types (the code may recognise fewer documents as HTML, never more). The handler-level "
+    "The predicate goes by the media type alone (parameters such as profile=\"text/html\" do not make a document HTML) and is liberal about letter case (the code may recognise fewer documents as HTML, never more); the frame's src is read the way a browser reads it (character references decoded, resolved against the page). The handler-level "
     "pipeline (ModifyResponse then ResponseWriter) is rebuilt by the harness the way agent.go wires it.",
     "property-based testing (rapid) + native go fuzzing: differential feature-on vs. wrapped response under a reference predicate; splice-validity oracle", "3/C14")
 add("C15", "exploration",
@@ -190,6 +191,6 @@ add("C19", "fault_enumeration",
     "return within 8 s (the waiting client within 45 s) with a correct result or an error status, and a re-posted response must arrive "
     "intact. The fault space (subset x count x phase x sizes) is sampled, not enumerated; the 504 path runs once in the thorough tier.",
     "The fake datastore/memcache implement only what the code uses (no 1 MiB RPC limit, no eventual consistency); every client request has "
-    "a unique URL and platform request id and every posted response carries Cache-Control (the proxy's own GET response cache is not part "
-    "of this property).",
+    "a unique URL and platform request id and every posted response carries Cache-Control: the proxy's own GET response cache (F19c) and its redirect of "
+    "non-canonical paths (F19d) are known findings with one fixed probe each, reported as KNOWN-FINDING. The in-process blob part also runs the periodic clean-up between write and read.",
     "property-based testing (rapid) with injected store faults: token/round-trip oracles on a wire-level fake of the App Engine API", "3/C19")
